@@ -2751,7 +2751,7 @@ class sptensor:
         if isinstance(other, (float, int)):
             if other == 0:
                 return ttb.sptensor(
-                    self.subs, True * np.ones((self.subs.shape[0], 1)), self.shape
+                    self.subs, True * np.ones((self.nnz, 1)), self.shape
                 )
             subs1 = np.empty(shape=(0, self.ndims), dtype=int)
             if self.nnz > 0:
